@@ -24,7 +24,7 @@ def run(module, cfg=None, env=None, workers=16, timeout=900, args=(), heap="8g",
     cfg = cfg or (module + ".cfg")
     meta = metadir or os.path.join(VERIF, "out", "meta", f"{module}-{os.getpid()}-{time.time_ns()}")
     os.makedirs(meta, exist_ok=True)
-    cmd = ["java", "-XX:+UseParallelGC", f"-Xmx{heap}", *jvm, "-cp", JAR, "tlc2.TLC",
+    cmd = ["java", "-XX:+UseParallelGC", f"-Xmx{heap}", "-Xss64m", *jvm, "-cp", JAR, "tlc2.TLC",
            "-workers", str(workers), "-metadir", meta, "-noGenerateSpecTE",
            "-config", cfg]
     if simulate:
